@@ -20,7 +20,7 @@ ANCHORS = ["decaylanguage.decay.decay:DecayChain.to_string", "decaylanguage.deca
            "decaylanguage.utils.utilities:DescriptorFormat.format_descriptor"]
 WORKERS = {"quick": 4, "thorough": 16}
 WTESTS = {"groups": ['to_string'], "tests": ['tests/decay', 'tests/utils']}
-REQUIRED = {"depth>=3": 50, "name-with-paren": 50, "name-with-quote-or-sign": 50, "repeated-subdecay": 50, "orders-compared": 500, "queried-before-to_string": 50, "rendered-before-inside-after-block": 50, "context-object-re-entered-inside-its-block": 20,
+REQUIRED = {"depth>=3": 50, "name-with-paren": 50, "name-with-quote-or-sign": 50, "repeated-subdecay": 50, "orders-compared": 500, "queried-before-to_string": 50, "rendered-before-inside-after-block": 50, "context-object-re-entered-inside-its-block": 20, "rejected-format-request-before-rendering": 20,
             **{f"pattern-pair-{i}": 20 for i in range(8)}, "C13.to_string.reads_back": 500}
 EXHAUSTIVE_NOTE = "tree shapes <= 5 (quick) / 6 (thorough) decaying particles enumerated with multiplicities 1..2; all daughter orders for small chains"
 ASSUMPTIONS = ["names contain no blanks and have balanced parentheses (all real particle names do)", "brackets of the pattern family do not occur in names"]
@@ -98,11 +98,25 @@ def check_case(ctx, case, workload):
                 # other read-only queries on the same object first
                 ctx.hit("queried-before-to_string")
                 _ = dc.visible_bf, dc.to_dict(), dc.flatten()
+            def rejected_request():
+                # a request with an acceptable first and an unacceptable second pattern is refused as a whole: the format in force stays
+                ctx.hit("rejected-format-request-before-rendering")
+                try:
+                    DescriptorFormat.set_config("{mother} ~~> {daughters}", "({mother} ~~> {dots})")
+                except ValueError:
+                    pass
+                else:
+                    ctx.violate("descriptor:invalid-pattern-accepted", "set_config accepted a sub-decay pattern without {daughters}", wit)
+
             if pi == 0:
+                if first and rng.random() < 0.3:
+                    rejected_request()
                 return dc.to_string()
             before = dc.to_string() if first else None
             fmt = DescriptorFormat(p1, p2)
             with fmt:
+                if first and rng.random() < 0.3:
+                    rejected_request()
                 if first and rng.random() < 0.5:
                     # the same context object used again inside its own block (e.g. by a helper): afterwards its patterns are still in force
                     ctx.hit("context-object-re-entered-inside-its-block")
